@@ -30,18 +30,18 @@ type c09Payer struct{ Role, Prov string }
 
 type c09Method struct {
 	Contract, Ctor, Type, AbiName, IdSrc string
-	Readonly                           bool
-	ReadonlyKnown                      bool
-	RequiredGas                        int
-	NativeCalls                        int
-	KeeperInside, KeeperOutside        []string
-	ForeignCtxInside, OuterCtx         int
-	LogsInside, LogsOutside            int
-	ErrPropagated                      bool
-	Swallowed                          int
-	Payers                             []c09Payer
-	Unknown                            []string
-	Where                              string
+	Readonly                             bool
+	ReadonlyKnown                        bool
+	RequiredGas                          int
+	NativeCalls                          int
+	KeeperInside, KeeperOutside          []string
+	ForeignCtxInside, OuterCtx           int
+	LogsInside, LogsOutside              int
+	ErrPropagated                        bool
+	Swallowed                            int
+	Payers                               []c09Payer
+	Unknown                              []string
+	Where                                string
 }
 
 type c09Helper struct {
@@ -373,7 +373,6 @@ func leanStrs(xs []string) string {
 	}
 	return leanList(ys)
 }
-
 
 func goModCache() string {
 	if v := os.Getenv("GOMODCACHE"); v != "" {
